@@ -286,6 +286,32 @@ func c02Enumerate(names []refdns.Name, recs []refdns.RR, maxRec, slots int, emit
 		}
 	}
 	rec()
+	// many records per section: every combination of 0..18 answers x 0..8 authorities x 0..3 additionals, each record with its own
+	// address (so a record that ends up in another section, is lost or is doubled shows): section sizes beyond whatever a decoder
+	// preallocates, and every way the sections can border on each other
+	{
+		N := refdns.N
+		for na := 0; na <= 18; na++ {
+			for nn := 0; nn <= 8; nn++ {
+				for nr := 0; nr <= 3; nr++ {
+					if na+nn+nr < 6 {
+						continue // small combinations are covered by (types)
+					}
+					m := &refdns.Msg{ID: 7, Bits: refdns.BitQR, Q: []refdns.Q{{Name: N("many", "test"), Type: 1, Class: 1}}}
+					for i := 0; i < na; i++ {
+						m.An = append(m.An, refdns.A(N("many", "test"), 60, 10, 1, byte(i), 1))
+					}
+					for i := 0; i < nn; i++ {
+						m.Ns = append(m.Ns, refdns.NameRR(refdns.TypeNS, N("test"), 60, N(fmt.Sprintf("ns%d", i), "test")))
+					}
+					for i := 0; i < nr; i++ {
+						m.Ar = append(m.Ar, refdns.A(N(fmt.Sprintf("ns%d", i), "test"), 60, 10, 3, byte(i), 3))
+					}
+					emit(c02Case{kind: "many", desc: fmt.Sprintf("%d answers, %d authorities, %d additionals", na, nn, nr), m: m, inC: na%2 == 0})
+				}
+			}
+		}
+	}
 	// names first occurring at offset >= 0x4000 (no pointer may be created to them)
 	{
 		bigrr := refdns.Unknown(refdns.N("a"), 65280, 1, make([]byte, 16400))
